@@ -547,6 +547,13 @@ def stepCore (e : Env) (line : String) : Env × String :=
     | ["dump.sent"] => let (s, _) ← runM e dumpSent; pure (e, s)
     | ["dump.pt", p] => let hp ← lookup e p; let (s, _) ← runM e (do pure (showPDict (← getP hp).d)); pure (e, s)
     | ["dump.ex", x] => let hx ← lookup e x; let (s, _) ← runM e (do pure (showEDict (← getE hx).d)); pure (e, s)
+    | ["dump.finish", x] =>
+      let hx ← lookup e x
+      let (s, _) ← runM e (do
+        let d := (← getE hx).d
+        let r := EDict.finishReconstruction d
+        pure ("sym=" ++ showEDict (EDict.symmetrize d) ++ " stats={const:" ++ showRat r.1 ++ ",printed:" ++ showRat (EDict.remainingAsPrinted d) ++ ",all:" ++ showRat r.2 ++ "}"))
+      pure (e, s)
     | ["dump.cons", c] => let hc ← lookup e c; let (s, _) ← runM e (showCons hc); pure (e, s)
     | ["dump.counters"] =>
       pure (e, s!"nP={e.w.nP} nE={e.w.nE} nF={e.w.nF} nPsd={e.w.nPsd} nPart={e.w.nPart}")
